@@ -14,8 +14,8 @@ CHECKS = {
          "for each of the 23 grammars (all 39 registered suffixes): every sequence of ≤3 (thorough ≤4) segments — code, string/markup decoys holding tag text, plain comments, start/end tags at every offset of 1- and 3-line comments of every comment form (line, block, doc, decorated, Markdown link-reference with all three title delimiters, HTML/XML), two tags per comment — closed into a balanced file, rendered LF and CRLF, with ASCII and multi-byte text around tags; attributes, line/byte column of `<`, exact content, pairing and source order compared with the construction",
          "tree-sitter grammars trusted on the kits' well-formed scaffolds (kit self-test); one leading line terminator of a content is don't-care; bounded scope", "§2 C03"),
  "C04": ("model_checking", "E1", "explicit-state search (parallel BFS; stateright selectable) over token soups per grammar + exhaustive one-mutation neighbourhoods of seed files + real git diffs of hostile files; supervised child process attributes aborts/hangs",
-         "per grammar every sequence of ≤3 (thorough ≤4) tokens over comment delimiters, tag fragments, a rule-laden start tag, quotes, newline, NBSP, combining mark, emoji, and ≤4 (≤5) over the core tokens; every single-token insertion/replacement/deletion at every token boundary of a seed file for all 39 suffixes (thorough: pairs of insertions); every real `git diff` between files of ≤2 (≤3) diff-look-alike lines; each run in scan and diff mode must end in a report or an error, never a panic, abort or hang (10 s watchdog)",
-         "\"any UTF-8 string\" is covered only through the token alphabets; tree-sitter internals are exercised, not modelled", "§2 C04"),
+         "per grammar every sequence of ≤3 (thorough ≤4) tokens over comment delimiters, tag fragments, a rule-laden start tag, quotes, newline, NBSP, combining mark, emoji, and ≤4 (≤5) over the core tokens; every single-token insertion/replacement/deletion at every token boundary of a seed file for all 39 suffixes (thorough: pairs of insertions); every sequence of ≤3 (≤4) validator-hostile content lines (nan, inf, overflow, non-ASCII digits, CJK, …) × 8 rule configurations behind a rule-less block, with and without a byte order mark; diffs that modify one line of 3 000 / 60 000 (/ 400 000) bytes; per grammar 300 / 60 000 (/ 300 000) levels of nested brackets, elements or block quotes through the real binary, one process per run; every real `git diff` between files of ≤2 (≤3) diff-look-alike lines; each run in scan and diff mode must end in a report or an error, never a panic, abort or hang (10 s watchdog)",
+         "\"any UTF-8 string\" is covered only through the token alphabets; tree-sitter internals are exercised, not modelled; two third-party findings (Markdown abort at 256 nested blocks, HTML/XML quadratic nesting) are recorded as known findings; 'promptly' = 10 s per run", "§2 C04"),
  "C05": ("model_checking", "E1", "explicit-state search (parallel BFS; stateright selectable) over attribute lists printed into six host comment forms; print/parse round trip against the printed AST",
          "every attribute list of 0..2 (thorough 0..3) attributes over (5 names incl. non-ASCII and duplicate) × (14 value forms: bare, unquoted ASCII / non-ASCII / with - and _, empty, with space, `>`, other quote, `=<`, `</block>`, non-ASCII, a whole start tag) × 3 separators × 3 `=` layouts, 3 closing spellings, 8 surrounding noises, in `#`, `/* */`, `<!-- -->`, `//`, SQL `--` and Rust `///` hosts (names and values also containing `--`, `//`, `#`); attributes (last duplicate wins) and position of `<` compared; 17 look-alikes × noises × hosts alone and beside real blocks; 6 end-tag spellings",
          "4–6 attributes not enumerated; host comments delivered by tree-sitter (C03)", "§2 C05"),
@@ -23,13 +23,13 @@ CHECKS = {
          "every sequence of ≤4 (thorough ≤5) content lines over a 16-line alphabet (ordered, equal, prefix-related, indented, trailing blank, blank, numeric-looking, pattern lines, case) plus an extended unicode/number alphabet, under every direction spelling × pattern (incl. empty-capable group, end-anchored, to end of line) × format, next to violating companion blocks of the other sync validators, also with CRLF line ends and in a Markdown host whose start comment goes on after the tag; the real parse+validate pipeline runs in every state and must agree with the reference on presence, uniqueness and location of the diagnostic",
          "regex crate trusted for which substring matches; tree-sitter trusted to deliver one-line # comments; bounded scope (longer blocks and other alphabets are not covered)", "§2 C06–C09"),
  "C07": ("model_checking", "E1", "explicit-state search (level-synchronous parallel BFS; stateright selectable) over content-line sequences against a reference duplicate finder",
-         "every sequence of ≤4 (thorough ≤5) lines over a 12-line alphabet with repeated keys, keys differing only in indentation / trailing blanks / outside the regex group, blank and non-matching lines, × {bare, empty, group regex, plain regex, anchored regex}",
+         "every sequence of ≤4 (thorough ≤5) lines over a 12-line alphabet with repeated keys, keys differing only in indentation / trailing blanks / outside the regex group, blank and non-matching lines, × {bare, empty, group regex, plain regex, anchored regex, group inside a longer match, empty-capable group, end-anchored, group in one branch only}, next to violating companion blocks of the other sync validators; also CRLF, byte order mark, Markdown host with a start comment that goes on after the tag, and one lonely block carrying all four sync rules under flag selections",
          "regex crate trusted; bounded scope", "§2 C06–C09"),
  "C08": ("model_checking", "E1", "explicit-state search (level-synchronous parallel BFS; stateright selectable) over content-line sequences against a reference matcher",
-         "every sequence of ≤4 (thorough ≤5) lines over a 12-line alphabet of matching, non-matching, indented, blank, whitespace-only, partially matching and multi-byte lines × 5 anchored/unanchored patterns",
+         "every sequence of ≤4 (thorough ≤5) lines over a 12-line alphabet of matching, non-matching, indented, blank, whitespace-only, partially matching and multi-byte lines and a line with a lone CR × 6 patterns, with companions; also CRLF, byte order mark, Markdown multi-line-comment host, lonely block with all sync rules × flag selections",
          "regex crate trusted; bounded scope", "§2 C06–C09"),
  "C10": ("model_checking", "E1", "exhaustive enumeration (explicit-state grid) of comment layouts × rule kinds; reported range compared with the constructed position of key / tag",
-         "full product of 8 host comment forms × 0..2 comment lines before and after the tag × multi-line tag × content on the tag's line × 3 indentations × multi-byte text × 8 rule kinds (sorted, sorted by regex group, unique, unique by regex group, pattern; line-count, check-lua, affects) × offending line 1..3 (18.8k applicable cases), plus the same rules in every comment form of every grammar's construction kit (23 grammars / 39 suffixes × tag layouts × LF/CRLF, 13k cases): the range must delimit exactly the offending key, or the start tag from `<` to `>`",
+         "full product of 8 host comment forms × 0..2 comment lines before and after the tag × multi-line tag × content on the tag's line × 3 indentations × multi-byte text × 9 rule kinds (sorted, sorted by regex group, unique, unique by regex group, unique by a regex key that runs to the end of the line, pattern; line-count, check-lua, affects) × offending line 1..3 (18.8k applicable cases), plus the same rules in every comment form of every grammar's construction kit (23 grammars / 39 suffixes × tag layouts × LF/CRLF, 13k cases): the range must delimit exactly the offending key, or the start tag from `<` to `>`",
          "check-ai's range shares check-lua's code path and is exercised in C19", "§2 C10"),
  "C11": ("model_checking", "E1+E2", "explicit-state search over repository configurations through the real CLI + choice-prefix DFS over block-map and validator-body orders through the library",
          "every repository of ≤2 (thorough ≤3) blocks over 2 files × 13 rule combinations (two of them flagging the same position with two rules) (each rule absent / satisfied / violated by construction) × 7 severity spellings: exit status 1 iff an error-severity diagnostic is expected, stderr one JSON object with every expected (file, block, code, severity) exactly once, root-relative keys, nothing printed without diagnostics, `list` exits 0 with all blocks; the same states under every block-map order × every order of the validator thread bodies (≈470k executions) for the exactly-once clause",
@@ -38,7 +38,7 @@ CHECKS = {
          "for each grammar (all 39 suffixes) every well-nested file of ≤2 (thorough ≤3) kit segments × every tag × {deleted, duplicated, lost with its comment} × {alone, first, last, between healthy files} × {scan, list, diff, diff+glob, diff+non-matching glob}, plus stray tags (`</ block>`, `< /block >`, `<block>`, `</block>`) appended in a comment of their own: the run must fail at parsing with an error naming the damaged file",
          "the all-lines-added diff emitter is validated against real git before the search; bounded scope", "§2 C12"),
  "C13": ("fault_enumeration", "E1+E2", "exhaustive enumeration of malformation × position × placement × block-map order, middle position under every schedule of the validator seams; real CLI for status and message",
-         "81 malformations over every rule kind (unknown direction/format, non-numeric keys at each position, bad regex in 5 attributes, 16 bad line-count expressions, colon-less affects references, unknown severities, Lua script empty/missing/directory/invalid UTF-8/no validate, empty AI condition, missing key) × {alone, first, middle, last} × {same file, own file} × all map orders, the middle position under all schedules; every malformation × 3 placements through the real CLI: never exit 0, never a panic, always a message",
+         "81 malformations over every rule kind (unknown direction/format, non-numeric keys at each position, bad regex in 5 attributes, 16 bad line-count expressions, colon-less affects references, unknown severities, Lua script empty/missing/directory/invalid UTF-8/no validate, empty AI condition, missing key) × {alone, first, middle, last} × {same file, own file} × {as is, with satisfied sibling rules, nested in a healthy block, in a Markdown file} × all map orders, alone/middle also in diff mode with a non-matching path argument, the middle position under all schedules; every malformation × 3 placements through the real CLI: never exit 0, never a panic, always a message",
          "the property's qualifiers are honoured (content present, violation present, block modified)", "§2 C13"),
  "C14": ("model_checking", "E1", "exhaustive enumeration (explicit-state grid) of violating-validator subsets × layouts × flag subsets × block-map orders through the library with recording AI endpoint and logging Lua scripts; CLI for flag parsing",
          "all 128 subsets of validators having a violating block × 3 layouts × {--disable, --enable} × flag sets (quick: sizes ≤2 and ≥6 everywhere, all 128 where all seven fire; thorough: all) × all map orders: codes = unrestricted codes minus / restricted to the named validators, status follows, no AI request and no Lua call from a switched-off validator; 19 flag spellings through the real CLI (repetition = union; both flags, unknown, padded, comma names rejected before validation)",
@@ -53,7 +53,7 @@ CHECKS = {
          "for 9 values of BLOCKWATCH_LUA_MODE a probe script enumerates every table/function/userdata reachable from _G, _ENV and the string metatable through fields, keys and metatables (≈130 values, ≈270 edges per mode) and returns all reachable function paths; default class: the set must equal the allow-list (base minus dofile/loadfile/require + coroutine/table/string/utf8/math) with none of io/os/package/debug/require/dofile/loadfile; safe adds io/os/package/require but no debug and no working native loader; unsafe adds debug and native loading; 19 concrete escape attempts per default-class value with a canary file",
          "Lua has no ambient authority beyond reachable values; upvalues of C library functions are unreachable without debug; behaviour of package.loadlib is probed by calling it", "§2 C17"),
  "C18": ("model_checking", "E1+E2", "explicit-state search over block sets × stateless choice-prefix DFS over every schedule of the scheduling seams (JoinSet delivery order, thread-body order) and every block-map order; real code re-executed per schedule",
-         "every set of ≤3 (thorough ≤4) scripted blocks over 9 script behaviours (incl. a script keeping state outside validate) × 2 files; for each, all delivery orders of the check-lua JoinSet × thread-body orders × map orders (55k executions quick); scripts log every call, so exactly-once, file, line, attributes and content are compared; any failing script must fail the run in every schedule; plus content × pattern × attribute cases, 8/16/40 blocks under 3 delivery orders (capped) and a labelled free-running CLI supplement",
+         "every set of ≤3 (thorough ≤4) scripted blocks over 9 script behaviours (incl. a script keeping state outside validate) × 2 files; for each, all delivery orders of the check-lua JoinSet × thread-body orders × map orders (55k executions quick); scripts log every call, so exactly-once, file, line, attributes and content are compared; any failing script must fail the run in every schedule; every block set also in diff mode with a path argument that matches no file; plus content × pattern × attribute cases, 8/16/40 blocks under 3 delivery orders (capped) and a labelled free-running CLI supplement",
          "tokio JoinSet contract trusted; intra-body interleavings not explored (bodies share only an immutable Arc)", "§2 C18"),
  "C19": ("fault_enumeration", "E1+E2", "exhaustive enumeration of reply/fault assignments to block sets × all delivery orders (choice-prefix DFS over the seams) against a recording fake endpoint keyed by request content",
          "every set of ≤2 (thorough ≤3) AI blocks over 10 replies and 11 endpoint faults × 2 files × all delivery orders; exactly one faithful request per block (path, bearer key, model, verbatim user message), OK-class ⇒ no diagnostic, other reply ⇒ one diagnostic quoting it on the start tag, any fault ⇒ run fails in every order; verbatim transport of 8 conditions × 7 contents × 4 patterns (quotes, backslashes, newlines, control characters, Unicode); whole-run faults: no key, empty key, connection refused",
@@ -62,7 +62,7 @@ CHECKS = {
          "10 catalogue repositories (a type change whose diff has a deleted-file and a new-file section for one path, one error file among warning-only files (CLI only), mixed severities, cross-file affects in diff mode, diff + glob, Lua (stateless and stateful) + AI + sync rules, list with diff, a malformed rule, one block name modified in two files, a directory named like a source file): all block-map orders × file-discovery orders (quick: 3 of them) × all diff-section orders × every schedule of the seams (quick: ≤3 deviations, 27k executions; thorough: all) must give one single status + diagnostic multiset / listed blocks / error; every directory as cwd through the real CLI; fresh processes with 1/16 runtime workers as a labelled sampling supplement",
          "per-process hash seeds of maps other than the block map and real thread timing are not enumerable: argued order-insensitive, sampled by the supplement", "§2 C20"),
  "C09": ("model_checking", "E1", "explicit-state search (parallel BFS; stateright selectable) over content-line sequences × layouts, each state carrying the full (operator, spacing, N) grid",
-         "every sequence of ≤5 (thorough ≤7) content lines over {statement, blank, whitespace-only, indented, comment, nested start/end tag} in every layout (tag on own line, content on the tag's line, both tags in one comment, adjacent comments) × 5 operators × 3 spacings × N 0..7; presence and data.actual/op/expected of the diagnostic compared with the reference count",
+         "every sequence of ≤5 (thorough ≤7) content lines over {statement, blank, whitespace-only, indented, comment, nested start/end tag} in every layout (tag on own line, content on the tag's line, both tags in one comment, adjacent comments) × 5 operators × 3 spacings × N 0..7, incl. layouts whose start tags all have a tab or a line break after `<block`; companions of the other sync validators; CRLF and byte order mark phases; lonely block with all sync rules × flag selections; presence and data.actual/op/expected of the diagnostic compared with the reference count",
          "bounded scope; large N and large blocks only through the grid", "§2 C06–C09"),
 }
 
